@@ -209,6 +209,14 @@ class Extractor:
             first, second = self.span(ins, k - 1), None
             if first and k - 1 - first >= 0:
                 second = self.span(ins, k - 1 - first)
+            if not first and op != "CONTAINS_OP":
+                # the key is not a plain name chain (a tuple display, an arithmetic expression ...): find where its straight-line code
+                # starts by stack effects; the container chain ends just before it and the access names the whole container
+                width = self.expr_width(ins, k - 1)
+                if width and k - 1 - width >= 0 and self.span(ins, k - 1 - width) and width + 4 <= 12:
+                    cont = self.chain(frame, ins, k - 1 - width, h, 1 + width)
+                    if isinstance(cont, CONTAINERS):
+                        return self.item(frame, SUBSCR_OPS.get(op, "R"), cont, MISSING)
             if not first or not second:
                 self.stats["unresolved-subscript"] += 1
                 return
@@ -219,6 +227,22 @@ class Extractor:
                 self.item(frame, SUBSCR_OPS.get(op, "R"), cont, key)
             elif cont is MISSING:
                 self.stats["unresolved-subscript"] += 1
+
+    def expr_width(self, ins, e):
+        """number of instructions of the straight-line code ending at index e that leaves exactly one value on the stack (0: unknown)"""
+        net, j = 0, e
+        while j >= 0 and e - j < 10:
+            i = ins[j]
+            if "JUMP" in i.opname or i.opname.startswith(("RETURN", "RAISE", "FOR_ITER", "SEND", "YIELD", "CALL", "STORE")):
+                return 0
+            try:
+                net += dis.stack_effect(i.opcode, i.arg)
+            except ValueError:
+                return 0
+            if net == 1:
+                return e - j + 1
+            j -= 1
+        return 0
 
     def span(self, ins, e):
         """number of instructions of the `name(.attr)*` chain ending at index e (0: not such a chain)"""
